@@ -418,18 +418,6 @@ Section Generic.
     Qed.
 
     (* (3) *)
-    Lemma branch_has_fallthrough l op : find_label p l <> None -> op = IBZ l \/ op = IBNZ l ->
-      fexit_op f blk = Some op -> exit_is_last f blk = false ->
-      exists s1 s2 r, ins_next p (last (b_ins blk) 0) = Some (s1 :: s2 :: r).
-    Proof.
-      intros Hfl Hop Hex' Hl. unfold exit_is_last in Hl. apply Nat.leb_gt in Hl.
-      destruct (fexit_op_inv _ _ _ Hex') as [_ Hop'].
-      unfold ins_next. rewrite Hop'.
-      destruct (find_label p l) as [y|] eqn:Ey; [|congruence].
-      apply Nat.ltb_lt in Hl.
-      destruct Hop; subst op; cbn [no_fallthrough negb andb jump_labels map_opt]; rewrite Hl, Ey; simpl; eauto.
-    Qed.
-
     Lemma nodup2 (d j : nat) r : NoDup (d :: j :: r) -> d <> j.
     Proof. intros H E. inversion H; subst. apply H2. left. reflexivity. Qed.
 
@@ -453,10 +441,8 @@ Section Generic.
             let is_bz := match xop with IBZ _ => true | _ => false end in
             match b_next blk with
             | [j] =>
-                match ins_next p (last (b_ins blk) 0) with
-                | Some (_ :: _ :: _) => Some univ
-                | _ => if Nat.eqb b' j then Some (if is_bz then fv else tv) else Some univ
-                end
+                if branch_to_next p xop (last (b_ins blk) 0) then Some univ
+                else if Nat.eqb b' j then Some (if is_bz then fv else tv) else Some univ
             | d :: j :: _ =>
                 if Nat.eqb b' d then Some (if is_bz then tv else fv)
                 else if Nat.eqb b' j then Some (if is_bz then fv else tv)
@@ -491,12 +477,10 @@ Section Generic.
         clearbody jumped z. clear Hbr Hg. unfold jump_ok in Hj.
         destruct (b_next blk) as [|d [|j r]] eqn:En; [discriminate| |].
         - (* one successor *)
-          destruct (ins_next p (last (b_ins blk) 0)) as [[|s1 [|s2 r']]|] eqn:Ei; try exact U;
-            (destruct (Nat.eqb b' d); [|exact U];
-             assert (Hlast : exit_is_last f blk = true) by
-               (destruct (exit_is_last f blk) eqn:Hl'; [reflexivity|];
-                destruct (branch_has_fallthrough l xop Hfl Hl Ex Hl') as (s1' & s2' & r'' & E'); congruence);
-             rewrite (Hj Hlast) in Hg'; intros E; inversion E; subst c; exact Hg').
+          destruct (branch_to_next p xop (last (b_ins blk) 0)) eqn:Ei; [exact U|].
+          destruct (Nat.eqb b' d); [|exact U].
+          assert (Hnn' : exit_to_next f blk = false) by (unfold exit_to_next; rewrite Ex; exact Ei).
+          rewrite (Hj Hnn') in Hg'. intros E; inversion E; subst c; exact Hg'.
         - (* fall-through d, jump target j *)
           pose proof (nodup2 _ _ _ Hnn) as Hdj.
           destruct jumped; subst b'.
